@@ -1,9 +1,10 @@
 #!/bin/bash
 # tools/kill_matrix.sh [seeded dirs...] — every seeded change against every check (quick tier); writes work/matrix.tsv
 cd /verif
-OUT=work/matrix.tsv; : > $OUT
+OUT=${MATRIX_OUT:-work/matrix.tsv}; touch $OUT
 DIRS="${*:-$(ls -d seeded/C*-* | sort)}"
 for d in $DIRS; do
+  grep -q "^$(basename $d)	" $OUT && continue
   res=$(SKIP_TESTS=1 tools/try_mutant.sh $d/patch.diff 2>&1)
   caught=$(echo "$res" | grep "^caught by:" | sed 's/caught by://')
   echo -e "$(basename $d)\t$caught" | tee -a $OUT
